@@ -25,6 +25,10 @@ def frac(n): return Fraction(int(n[1]), int(n[2]))
 def fl(x):
     n, d = float(x).as_integer_ratio(); return ["float", str(n), str(d)]
 
+def math_log10(x):
+    import math
+    return math.log10(x)
+
 def main():
     c = Check("C18")
     c.static_theorems()
@@ -70,6 +74,20 @@ def main():
                 for qm in (refm, refm * 100, 1.0):
                     cases.append({"op": "level", "l": {"t": "qty", "m": fl(qm), "u": unit}, "r": lu}); meta.append((fam, k, base, pv, unit, unit))
                 cases.append({"op": "quantify", "l": dict(lu, t="level", m=fl(0.0))}); meta.append((fam, k, base, pv, None, unit))
+    # whole-number magnitudes written as Python ints (levels, quantities and references): the definition does not depend on the numeric type
+    for fam in FAMS:
+        units, k = FAMS[fam]
+        for log, pre, base, pv in LOGS:
+            bb = float(base) if base is not None else float(E)
+            for lm in (1, 3, -3, 2, 5, 7, -1, 0):
+                if abs(lm * float(pv) * (math_log10(bb))) > 200: continue
+                ur = units[0]
+                lu = {"log": log, "prefix": pre, "ref": {"m": ["int", "1", "1"], "u": ur}}
+                cases.append({"op": "quantify", "l": dict(lu, t="level", m=["int", str(lm), "1"])}); meta.append((fam, k, base, pv, None, ur))
+            for qm in (1, 3, 10, 1000):
+                ur = units[0]; uq = rng.choice(units)
+                lu = {"log": log, "prefix": pre, "ref": {"m": ["int", "2", "1"], "u": ur}}
+                cases.append({"op": "level", "l": {"t": "qty", "m": ["int", str(qm), "1"], "u": uq}, "r": lu}); meta.append((fam, k, base, pv, uq, ur))
     # monotonicity pairs
     mono = []
     for _ in range(60 if quick else 600):
